@@ -244,13 +244,31 @@ func (w *verifC09Writer) UpdateAccountsRound(rnd basics.Round) error {
 	return w.AccountsWriterExt.UpdateAccountsRound(rnd)
 }
 
+// registryLocked: is trackerRegistry.mu write-locked right now?  Every other goroutine is stopped or waiting for this one
+// when a tracker transaction runs, so a held lock is held by the transaction's own goroutine (a tracker that writes from
+// postCommit): stopping there would block everybody else, so such a transaction is recorded without a stop.
+func (h *verifC09Run) registryLocked() bool {
+	ok := make(chan struct{})
+	go func() {
+		h.l.trackers.mu.RLock()
+		h.l.trackers.mu.RUnlock() //nolint:staticcheck
+		close(ok)
+	}()
+	select {
+	case <-ok:
+		return false
+	case <-time.After(2 * time.Second):
+		return true
+	}
+}
+
 func (h *verifC09Run) stopT(point string, ev []string) {
 	h.mu.Lock()
 	ev = append(append([]string{}, h.pendT...), ev...)
 	h.pendT = nil
 	h.mu.Unlock()
 	a := verifC09Arr{'t', point, ev}
-	if h.stepping.Load() {
+	if h.stepping.Load() && !h.registryLocked() {
 		h.arrT <- a
 		<-h.goT
 		return
